@@ -948,6 +948,59 @@ example : DaysIter.next Date.MAX = .ok none ∧ WeeksIter.next_back (dateOfYo (-
     runScript DaysIter.next DaysIter.next_back [false, false, false] Date.MAX = .ok [none, none, none] := by
   decide +kernel
 
+/-- the cursor after `k` successful forward (backward) calls — what `Iterator::nth(k)` /
+`advance_by(k)` (std default methods: `k` calls of `next`) leave behind: the date exactly `k`
+(`7k`) days later (earlier), or exhaustion exactly when that day is outside the range -/
+theorem iter_nth_state (v : Date) (k : Nat) (h : DateInv v) :
+    (∃ r, stateAfter DaysIter.next k v = .ok r ∧ IsDayShift v k r) ∧
+    (∃ r, stateAfter DaysIter.next_back k v = .ok r ∧ IsDayShift v (-k) r) ∧
+    (∃ r, stateAfter WeeksIter.next k v = .ok r ∧ IsDayShift v (7 * k) r) ∧
+    (∃ r, stateAfter WeeksIter.next_back k v = .ok r ∧ IsDayShift v (-(7 * k)) r) := by
+  obtain ⟨r1, a1, b1⟩ := stateAfter_spec _ 1 (by omega) days_next_steps k v h
+  obtain ⟨r2, a2, b2⟩ := stateAfter_spec _ (-1) (by omega) days_back_steps k v h
+  obtain ⟨r3, a3, b3⟩ := stateAfter_spec _ 7 (by omega) weeks_next_steps k v h
+  obtain ⟨r4, a4, b4⟩ := stateAfter_spec _ (-7) (by omega) weeks_back_steps k v h
+  exact ⟨⟨r1, a1, dshift_congr v _ _ r1 (by omega) b1⟩, ⟨r2, a2, dshift_congr v _ _ r2 (by omega) b2⟩,
+    ⟨r3, a3, dshift_congr v _ _ r3 (by omega) b3⟩, ⟨r4, a4, dshift_congr v _ _ r4 (by omega) b4⟩⟩
+
+/-- `count()` and `last()` of a forward iterator (std default methods: drain with `next`): the number
+of items is the length hint, and the last item is the last day (week step) before `NaiveDate::MAX`
+is reached: day number `dayNum start + (hint − 1)` (`+ 7·(hint − 1)`) -/
+theorem iter_count_last (v : Date) (fuel : Nat) (h : DateInv v) (hf : DN_MAX - dayNumOf v < fuel) :
+    (∃ items, drain DaysIter.next fuel v = .ok (items, true) ∧
+      DaysIter.size_hint_pair v = .ok ((items.length : Int), some (items.length : Int)) ∧
+      ∀ (hne : items ≠ []), DateInv (items.getLast hne) ∧ dayNumOf (items.getLast hne) = DN_MAX - 1) ∧
+    (∃ items, drain WeeksIter.next fuel v = .ok (items, true) ∧
+      WeeksIter.size_hint_pair v = .ok ((items.length : Int), some (items.length : Int)) ∧
+      ∀ (hne : items ≠ []), DateInv (items.getLast hne) ∧
+        dayNumOf (items.getLast hne) = dayNumOf v + 7 * ((DN_MAX - dayNumOf v) / 7 - 1)) := by
+  obtain ⟨p1, p2, p3, _⟩ := iter_size_hint_pair v h
+  obtain ⟨⟨items, fin, a, b, c, d⟩, _⟩ := iter_days_nth v fuel h
+  obtain ⟨⟨items', fin', a', b', c', d'⟩, _⟩ := iter_weeks_nth v fuel h
+  have hfin : fin = true := c.mpr hf
+  have hfin' : fin' = true := c'.mpr (by omega)
+  subst hfin; subst hfin'
+  have hl : (items.length : Int) = DN_MAX - dayNumOf v := by rw [b]; omega
+  have hl' : (items'.length : Int) = (DN_MAX - dayNumOf v) / 7 := by rw [b']; omega
+  refine ⟨⟨items, a, by rw [hl]; exact p1, ?_⟩, ⟨items', a', by rw [hl']; exact p2, ?_⟩⟩
+  · intro hne
+    have hpos : 0 < items.length := List.length_pos_iff.mpr hne
+    rw [List.getLast_eq_getElem]
+    obtain ⟨q1, q2⟩ := d (items.length - 1) (by omega)
+    refine ⟨q1, ?_⟩
+    rw [q2]; omega
+  · intro hne
+    have hpos : 0 < items'.length := List.length_pos_iff.mpr hne
+    rw [List.getLast_eq_getElem]
+    obtain ⟨q1, q2⟩ := d' (items'.length - 1) (by omega)
+    refine ⟨q1, ?_⟩
+    rw [q2]; omega
+
+example : stateAfter DaysIter.next 2 (dateOfYo 262142 363) = .ok (some Date.MAX) ∧
+    stateAfter DaysIter.next 3 (dateOfYo 262142 363) = .ok none ∧
+    stateAfter WeeksIter.next_back 1 (dateOfYo (-262143) 8) = .ok (some Date.MIN) ∧
+    stateAfter WeeksIter.next_back 2 (dateOfYo (-262143) 8) = .ok none := by decide +kernel
+
 /-- the order of zone-aware values for ALL valid operands, leap-second representations included:
 lexicographic on (whole seconds since the epoch, nanosecond field) — for non-leap operands this is
 the order of instants (`zoned_cmp_instant_order`); a leap-second representation `:59.1xxxxxxxxx`
